@@ -11,7 +11,10 @@ type readReactor struct {
 }
 
 func (r *readReactor) on(err error) {
-	r.peer.ioc.Deregister(&r.peer.slot)
+	if r.peer.slot.Events == 0 {
+		// keep the object reachable while its other direction is still in flight
+		r.peer.ioc.Deregister(&r.peer.slot)
+	}
 
 	if err != nil {
 		r.fn(err, 0, netip.AddrPort{})
@@ -28,7 +31,10 @@ type writeReactor struct {
 }
 
 func (r *writeReactor) on(err error) {
-	r.peer.ioc.Deregister(&r.peer.slot)
+	if r.peer.slot.Events == 0 {
+		// keep the object reachable while its other direction is still in flight
+		r.peer.ioc.Deregister(&r.peer.slot)
+	}
 
 	if err != nil {
 		r.fn(err, 0)
